@@ -375,3 +375,122 @@ Section Sells.
       + constructor; assumption.
   Qed.
 End Sells.
+
+(* ---------------------------------------------------------------- counting the sales over the holdings *)
+Fixpoint tot_c (hs : list ahold) (l : list asell) : Qc :=
+  match hs with [] => 0 | h :: r => qn (cnt (af_id (ah_af h)) l) + tot_c r l end.
+Lemma tot_c_nomatch hs s r : ~ In (af_id (as_af s)) (map (fun h => af_id (ah_af h)) hs) -> tot_c hs (s :: r) = tot_c hs r.
+Proof.
+  induction hs as [|h hs IH]; intros Hn; [reflexivity|]. cbn [tot_c cnt].
+  destruct (N.eqb_spec (af_id (as_af s)) (af_id (ah_af h))) as [E|_].
+  - exfalso. apply Hn. left. symmetry. exact E.
+  - rewrite IH; [reflexivity|]. intros Hc. apply Hn. right. exact Hc.
+Qed.
+Lemma tot_c_cons hs s r : NoDup (map (fun h => af_id (ah_af h)) hs) ->
+  In (af_id (as_af s)) (map (fun h => af_id (ah_af h)) hs) -> tot_c hs (s :: r) = tot_c hs r + 1.
+Proof.
+  induction hs as [|h hs IH]; intros Hnd Hin; [destruct Hin|].
+  apply NoDup_cons_iff in Hnd as [Hni Hnd]. cbn [tot_c cnt].
+  destruct (N.eqb_spec (af_id (as_af s)) (af_id (ah_af h))) as [E|E].
+  - rewrite tot_c_nomatch by (rewrite E; exact Hni). cbn [qn]. ring.
+  - destruct Hin as [Hin|Hin]; [exfalso; apply E; symmetry; exact Hin|]. rewrite (IH Hnd Hin). ring.
+Qed.
+Lemma tot_c_length hs l : NoDup (map (fun h => af_id (ah_af h)) hs) ->
+  Forall (fun s => In (af_id (as_af s)) (map (fun h => af_id (ah_af h)) hs)) l -> tot_c hs l = qn (length l).
+Proof.
+  intros Hnd. induction 1 as [|s r Hs Hr IH]; cbn [length qn].
+  - clear. induction hs as [|h hs IH]; cbn [tot_c cnt qn]; [reflexivity|]. rewrite IH. ring.
+  - rewrite (tot_c_cons hs s r Hnd Hs), IH. reflexivity.
+Qed.
+Lemma tot_n_split hs l : (forall h, In h hs -> ah_n h = ah_sh h + qn (cnt (af_id (ah_af h)) l)) ->
+  tot_n hs = tot_sh hs + tot_c hs l.
+Proof.
+  induction hs as [|h hs IH]; intros H; cbn [tot_n tot_sh tot_c]; [ring|].
+  rewrite (H h (or_introl eq_refl)), IH by (intros x Hx; apply H; right; exact Hx). ring.
+Qed.
+
+(* ---------------------------------------------------------------- the generated rows of the annual mode, run from nothing *)
+Theorem annual_rebuild like d0 (hs : list ahold) (sells : list asell) X :
+  NoDup (map (fun h => af_id (ah_af h)) hs) -> Forall ah_ok hs ->
+  (forall h, In h hs -> ah_n h = ah_sh h + qn (cnt (af_id (ah_af h)) sells)) ->
+  Forall (sell_ok hs X) sells ->
+  StronglySorted (fun a b => in_gap (as_date a) b) sells -> NoDup (map akey sells) ->
+  Forall (fun s => (d0 < as_date s - window_days)%Z) sells ->
+  exists dsB dsS stG,
+    run_part exact [] st0 (map (abuy_tx like d0) hs ++ map (asell_tx like) sells) X
+    = (dsB ++ dsS, rev (map (asell_tx like) sells) ++ rev (map (abuy_tx like d0) hs), stG, None)
+    /\ ps_all stG = tot_sh hs /\ lp stG = ps_all stG
+    /\ (forall af, obs stG af = obs_hs hs af ah_sh (obs st0 af))
+    /\ Forall (fun d => d_gain d = None) dsB
+    /\ map d_gain dsS = map (fun s => Some (as_gain s - as_loss s)) sells
+    /\ Forall (fun d => d_sfl d = None) dsS.
+Proof.
+  intros Hnd Hok Hn Hso Hsort Hndk Hd0.
+  assert (HF0 : Forall (fun h => ah_ok h /\ fresh st0 (ah_af h)) hs).
+  { apply Forall_forall. intros x Hx. split; [apply (proj1 (Forall_forall _ _) Hok x Hx) | reflexivity]. }
+  destruct (abuys_part like d0 hs [] st0 (map (asell_tx like) sells ++ X) ltac:(cbn; qc_lra) eq_refl Hnd HF0)
+    as (dsB & stB & HB & HtotB & HlpB & HobsB & HgB).
+  assert (Hids : Forall (fun s => In (af_id (as_af s)) (map (fun h => af_id (ah_af h)) hs)) sells).
+  { eapply Forall_impl; [|exact Hso]. intros s ((h & Hf & _) & _). apply find_some in Hf as [Hin E]. apply N.eqb_eq in E.
+    apply in_map_iff. exists h. split; [exact E | exact Hin]. }
+  assert (HallB : ps_all stB = tot_sh hs + qn (length sells)).
+  { rewrite HtotB, (tot_n_split hs sells Hn), (tot_c_length hs sells Hnd Hids). cbn [ps_all st0]. ring. }
+  assert (HinvB : inv_obs hs stB sells).
+  { intros af. rewrite (HobsB af). unfold obs_hs. destruct (find_ah hs af) as [h|] eqn:Ef; [|reflexivity].
+    apply find_some in Ef as [Hin _]. rewrite (Hn h Hin). reflexivity. }
+  assert (Hin : Forall (fun s => inert exact (as_date s - window_days) (rev (map (abuy_tx like d0) hs) ++ [])) sells).
+  { eapply Forall_impl; [|exact Hd0]. intros s Hs. cbv beta in Hs. apply all_before_inert. rewrite app_nil_r.
+    apply Forall_rev. apply Forall_map. apply Forall_forall. intros h _. exact Hs. }
+  destruct (asells_part like hs X Hok sells [] _ stB (Forall_nil _) Hso Hsort Hndk Hin HallB HlpB HinvB)
+    as (dsS & stG & HS & Htot & Hlp & Hinv & Hg & Hsf).
+  exists dsB, dsS, stG. split; [|split; [exact Htot|split; [exact Hlp|split; [|split; [exact HgB|split; assumption]]]]].
+  - rewrite run_part_app, HB. cbn [app] in HS. rewrite HS. rewrite app_nil_r. reflexivity.
+  - intros af. rewrite (Hinv af). unfold obs_hs. destruct (find_ah hs af); [|reflexivity]. cbn [cnt qn].
+    unfold ah_obs. f_equal; [ring|]. destruct (ah_aps a); [|reflexivity]. cbn [option_map]. f_equal. ring.
+Qed.
+
+(* ---------------------------------------------------------------- ... followed by the later rows *)
+Theorem roundtrip_annual_run regof like d0 (hs : list ahold) (sells : list asell) T B1 st1 dsT :
+  NoDup (map (fun h => af_id (ah_af h)) hs) -> Forall ah_ok hs ->
+  (forall h, In h hs -> ah_n h = ah_sh h + qn (cnt (af_id (ah_af h)) sells)) ->
+  Forall (sell_ok hs T) sells ->
+  StronglySorted (fun a b => in_gap (as_date a) b) sells -> NoDup (map akey sells) ->
+  Forall (fun s => (d0 < as_date s - window_days)%Z) sells ->
+  ps_all st1 = tot_sh hs -> lp st1 = ps_all st1 ->
+  (forall af, goodaf regof af -> obs st1 af = obs_hs hs af ah_sh (0, if af_reg af then None else Some 0)) ->
+  run_loop exact B1 st1 T = (dsT, None) -> Forall spec_nz T -> Forall (gooddelta regof) dsT ->
+  Forall (fun d => (d_sfl d <> None -> inert exact (d_sd d - window_days) B1)
+                   /\ ((d_sfl d <> None \/ loss_row d) -> (d0 < d_sd d - window_days)%Z)) dsT ->
+  exists dsB dsS,
+    run exact None (map (abuy_tx like d0) hs ++ map (asell_tx like) sells ++ T) = (dsB ++ dsS ++ dsT, None)
+    /\ Forall (fun d => d_gain d = None) dsB
+    /\ map d_gain dsS = map (fun s => Some (as_gain s - as_loss s)) sells
+    /\ Forall (fun d => d_sfl d = None) dsS.
+Proof.
+  intros Hnd Hok Hn Hso Hsort Hndk Hd0 Htot1 Hlp1 Hobs1 HT Hnz HG HW.
+  destruct (annual_rebuild like d0 hs sells T Hnd Hok Hn Hso Hsort Hndk Hd0)
+    as (dsB & dsS & stG & Hrun & Htot & Hlp & Hobs & HgB & Hg & Hsf).
+  set (B2 := rev (map (asell_tx like) sells) ++ rev (map (abuy_tx like d0) hs)) in *.
+  assert (Hgood : forall af, goodaf regof af -> obs st1 af = obs stG af).
+  { intros af Hga. rewrite (Hobs1 af Hga), (Hobs af). reflexivity. }
+  assert (HR : srel regof st1 stG).
+  { split; [|split; [|split]].
+    - rewrite Htot, Htot1. reflexivity.
+    - rewrite Hlp1, Hlp, Htot, Htot1. reflexivity.
+    - intros af. set (af' := {| af_id := af_id af; af_reg := regof (af_id af); af_dflt := af_dflt af |}).
+      assert (Hga : goodaf regof af') by reflexivity.
+      rewrite (obs_fst_id st1 af af' eq_refl), (obs_fst_id stG af af' eq_refl), (Hgood af' Hga). reflexivity.
+    - intros af Hga. rewrite (Hgood af Hga). reflexivity. }
+  assert (HB2 : forall first, (d0 < first)%Z -> inert exact first B2).
+  { intros first Hf. unfold B2. apply sells_inert.
+    - apply Forall_rev. apply Forall_map. apply Forall_forall. intros s _. reflexivity.
+    - apply all_before_inert. apply Forall_rev. apply Forall_map. apply Forall_forall. intros h _. exact Hf. }
+  assert (HWc : Forall (wcond B1 B2) dsT).
+  { eapply Forall_impl; [|exact HW]. intros d [H1 H2]. split.
+    - intros Hs. split; [apply H1; exact Hs | apply HB2; apply H2; left; exact Hs].
+    - intros _ Hl. apply HB2. apply H2. right. exact Hl. }
+  pose proof (later_sim B1 B2 regof T [] [] st1 stG dsT (Forall2_nil _) HR Hnz HT HWc HG) as ET.
+  exists dsB, dsS. split; [|split; [exact HgB|split; assumption]].
+  rewrite run_None. fold st0. rewrite app_assoc, run_loop_app, Hrun. cbn [app] in ET. rewrite ET.
+  rewrite <- app_assoc. reflexivity.
+Qed.
